@@ -1,6 +1,8 @@
 //go:build verif
 
 //verif:pkg revocation/ocsp
+// for the bounded inputs of these harnesses no loop of the code under test runs anywhere near 300 iterations: more is a hang
+//verif:terminates github.com/notaryproject/notation-core-go/ 300
 //verif:include ../C12/standalone.go
 //verif:harness H_C17_standalone
 package ocsp
